@@ -20,8 +20,16 @@ open Dd_types
 let pid (p : Model.positive) = Z.to_string (Z.pred (z_of_pos p))
 
 (* isomorphism between the model's table [m] and the manager's table [ps]; [orig id] = the id
-   existed before the operation and has been stored ever since (it must keep its identity) *)
-let iso ?(roots : (Model.positive * Model.positive) list = []) (orig : Model.positive -> bool) (m : Model.snap) (ps : psnap) (what : string) : (unit, string * string) result =
+   existed before the operation and has been stored ever since (it must keep its identity).
+
+   GLUE: the verdict is the one of the EXTRACTED, PROVED checker [Model.iso_snap_b] (coq/DD/IsoCheck.v; sound and
+   complete by C20_iso_snap_sound / C20_iso_check_complete: kind, variable order, terminals and handle slots
+   literally; nodes and handle edges up to an injective renaming that fixes the [orig] ids and maps the [roots]).
+   The former hand-written comparison [iso_hand] below only words the message when the checker rejects; if it
+   finds nothing the statistic [iso_disagree] is raised and the case fails all the same.  With GLUE_CROSS=1 in the
+   environment it is also run on every accepted table (it must accept: [iso_disagree] otherwise). *)
+let glue_cross = Sys.getenv_opt "GLUE_CROSS" <> None
+let iso_hand ?(roots : (Model.positive * Model.positive) list = []) (orig : Model.positive -> bool) (m : Model.snap) (ps : psnap) (what : string) : (unit, string * string) result =
   let ints l = List.map int_of_nat l in
   let show l = String.concat " " (List.map string_of_int l) in
   if ints m.Model.s_v2l <> Array.to_list ps.v2l || ints m.Model.s_l2v <> Array.to_list ps.l2v then
@@ -103,6 +111,26 @@ let iso ?(roots : (Model.positive * Model.positive) list = []) (orig : Model.pos
       | Some msg -> Error ("corr", Printf.sprintf "%s: %s" what msg)
     end
   end
+
+let iso ?(roots : (Model.positive * Model.positive) list = []) (orig : Model.positive -> bool) (m : Model.snap) (ps : psnap) (what : string) : (unit, string * string) result =
+  let e (p : Model.positive) = { Model.eref = Model.RN p; Model.etag = false } in
+  stat "iso_extracted_checks" 1;
+  stat "iso_disagree" 0;
+  match Model.iso_snap_b orig m ps.snap (List.map (fun (a, b) -> (e a, e b)) roots) with
+  | Some _ ->
+    if glue_cross then
+      (match iso_hand ~roots orig m ps what with
+       | Ok () -> Ok ()
+       | Error (_, msg) ->
+         stat "iso_disagree" 1;
+         Error ("corr", Printf.sprintf "driver: the extracted checker accepts a table the hand-written comparison rejects (%s)" msg))
+    else Ok ()
+  | None ->
+    (match iso_hand ~roots orig m ps what with
+     | Error err -> Error err
+     | Ok () ->
+       stat "iso_disagree" 1;
+       Error ("corr", Printf.sprintf "%s: the extracted checker IsoCheck.iso_snap_b rejects the manager's table (no injective renaming of the new nodes maps the model's table onto it); the hand-written comparison finds no difference" what))
 
 let mem (m : Model.node Model.PositiveMap.t) (id : Model.positive) = Model.PositiveMap.find id m <> None
 
